@@ -5,8 +5,10 @@ case = (saver, max_retries, parts, pre, wfaults, cfaults)
   parts    text: [[line, ...], ...]; pickle: [(pickle.dumps(elements), elements), ...]  (pickle is a black box
            whose output is handed to the model)
   pre      state of the target path before the save, as faultfs.snapshot: (0,) | (1, bytes) | (2, [((kind, i), bytes)...])
-  wfaults  [(dump_call_index, mode, j)]  mode 0 before / 1 after mkdir / 2 torn after j bytes   (faultfs.FaultFS)
-  cfaults  [(partition, attempt)]        computations that raise                                  (faultfs.FaultyPartitions)
+  wfaults  [(dump_call_index, mode, j, cls)]  mode 0 before / 1 after mkdir / 2 torn after j bytes   (faultfs.FaultFS)
+  cfaults  [(partition, attempt, cls, lazy)]  computations that raise, at the call or lazily       (faultfs.FaultyPartitions)
+  cls      0 the injector's own Exception subclass, 1 OSError, 2 StopIteration, 3 GeneratorExit,
+           4 (computations only) StopIteration raised by next() on an empty iterator inside the partition function
 
 result = (exception or None, final state of the target, state after every dump call, number of dump calls,
           Context.locked, outcome of a follow-up job on the same context, what reading the target returns or None
@@ -21,11 +23,12 @@ import shutil
 
 from common.coqlit import Err, uncanon
 import faultfs
-from faultfs import BEFORE, MKDIR, TORN
+from faultfs import BEFORE, GENEXIT, INJECTED, MKDIR, NATURAL, OSERROR, STOP, TORN
 from pysparkling import Context
 
 ID = 'C09'
 KERNELS = ['Gen/SaveOrder.v: text_steps', 'Gen/SaveOrder.v: pickle_steps', 'Gen/SaveOrder.v: runjob_lock_release',
+           'Gen/SaveOrder.v: runjob_local_kind',
            'Gen/SaveOrder.v: part_name']
 SHARD = 120
 TEXT, PICKLE = 0, 1   # + 2: the same saver called with a file:// URL of the target
@@ -48,6 +51,10 @@ ASSUMPTIONS = [
     'pickle is a black box: the bytes pickle.dumps produces for a partition are given to the model in the case',
     'a failing write is an exception raised by Local.dump before it starts, at open(), or from the stream while '
     'writing (torn file); faults of os.makedirs itself and faults after the last byte are not injected',
+    'fault classes: an ordinary Exception subclass, OSError, StopIteration (raised directly, from a generator, and by '
+    'next() on an empty iterator inside the partition function), GeneratorExit as the BaseException that is not an '
+    'Exception; KeyboardInterrupt/SystemExit are out of scope; an iterator that merely ENDS early (StopIteration from '
+    '__next__) is a shorter partition / shorter stream, not a fault, and is not injected',
     'fewer than 100000 partitions (beyond that part-%05d names stop sorting by index; hypothesis valid_name of the name-order theorem)',
 ]
 TRUSTED = ['translator/kernels/c09.py (statement-shape classifier for the two savers and Context.runJob)',
@@ -104,8 +111,10 @@ def impl(case):
                     rdd.saveAsTextFile(url)
                 else:
                     rdd.saveAsPickleFile(url)
-            except Exception as e:  # pylint: disable=broad-except
-                outcome = Err(type(e).__name__)
+            except (KeyboardInterrupt, SystemExit):
+                raise
+            except BaseException as e:  # pylint: disable=broad-except
+                outcome = Err(type(e).__name__)   # BaseException: GeneratorExit is one of the injected classes
         final = faultfs.snapshot(target)
         hist = list(ff.snapshots)
         locked = bool(ctx.locked)
@@ -168,15 +177,17 @@ def oracle(case, result):
     #    file was created: an empty file cannot be half-written) and raises one of the injected faults
     if outcome is not None:
         prev = hist[-2] if len(hist) >= 2 else ABSENT
-        torn_marker = (calls > 0 and len(hist) == calls and outcome == Err('InjectedWriteFault')
-                       and any(k == calls - 1 and mode == TORN for k, mode, _ in wfaults)
+        torn_marker = (calls > 0 and len(hist) == calls
+                       and any(w[0] == calls - 1 and w[1] == TORN for w in wfaults)
                        and not _has_marker(prev) and _has_marker(hist[-1]))
         if _has_marker(final) and not torn_marker:
             return (f'{site}:marker-after-failed-save', f'outcome {outcome!r}, final {final!r}')
-        if outcome not in (Err('InjectedWriteFault'), Err('InjectedComputeFault')):
-            return (f'{site}:foreign-exception', f'outcome {outcome!r}')
-        if outcome == Err('InjectedWriteFault') and not wfaults or outcome == Err('InjectedComputeFault') and not cfaults:
-            return (f'{site}:foreign-exception', f'outcome {outcome!r} without such a fault in the plan')
+        allowed = {_CLS_NAME[w[3]] or 'InjectedWriteFault' for w in wfaults} \
+            | {_CLS_NAME[c[2]] or 'InjectedComputeFault' for c in cfaults}
+        if 'StopIteration' in allowed:
+            allowed.add('RuntimeError')    # what a StopIteration becomes when it crosses a generator (PEP 479)
+        if outcome.name not in allowed:
+            return (f'{site}:foreign-exception', f'outcome {outcome!r}, faults in the plan raise {sorted(allowed)}')
     else:
         # 4. success is reported only for a complete save
         if n == 1:
@@ -186,10 +197,10 @@ def oracle(case, result):
             return (f'{site}:success-without-complete-output', f'final {final!r}')
     # 5. the error reaches the caller
     for i in range(n):
-        if all((i, a) in {tuple(c) for c in cfaults} for a in range(1, m + 1)) and outcome is None:
+        if all((i, a) in {(c[0], c[1]) for c in cfaults} for a in range(1, m + 1)) and outcome is None:
             return (f'{site}:compute-failure-swallowed', f'partition {i} fails on every attempt, save returned normally')
     if not cfaults and wfaults and outcome is None:
-        ks = sorted(k for k, _, _ in wfaults)
+        ks = sorted(w[0] for w in wfaults)
         first = ks[0]
         if n == 1:
             swallowed = first == 0
@@ -205,6 +216,9 @@ def oracle(case, result):
         if read != flat:
             return (f'{site}:read-back', f'read {read!r}, saved {flat!r}')
     return None
+
+
+_CLS_NAME = {INJECTED: None, OSERROR: 'OSError', STOP: 'StopIteration', GENEXIT: 'GeneratorExit', NATURAL: 'StopIteration'}
 
 
 def _norm(snap):
@@ -254,6 +268,14 @@ def _modes(content_len):
     return [(BEFORE, 0), (MKDIR, 0), (TORN, 0), (TORN, 1), (TORN, content_len + 3)]
 
 
+def _w(k, mode, j, cls=INJECTED):
+    return (k, mode, j, cls)
+
+
+def _c(i, a, cls=INJECTED, lazy=None):
+    return (i, a, cls, bool((i + a) % 2) if lazy is None else lazy)
+
+
 def generate(rng, tier):
     quick = tier == 'quick'
     cases = []
@@ -273,36 +295,54 @@ def generate(rng, tier):
             points = range(n + 1) if n != 1 else [0]
             for k in points:
                 for mode, j in _modes(len(_content(saver, parts[k])) if k < n else 0):
-                    cases.append((saver, 1, parts, ABSENT, [(k, mode, j)], []))
+                    cases.append((saver, 1, parts, ABSENT, [_w(k, mode, j)], []))
                     # retried once: the fault is masked for part files, fatal for the marker and the single file
-                    cases.append((saver, 2, parts, ABSENT, [(k, mode, j)], []))
+                    cases.append((saver, 2, parts, ABSENT, [_w(k, mode, j)], []))
                     for m in (2, 3):
                         # the same file fails on every attempt
                         width = m if (k < n and n != 1) else 1
-                        cases.append((saver, m, parts, ABSENT, [(k + t, mode, j) for t in range(width)], []))
+                        cases.append((saver, m, parts, ABSENT, [_w(k + t, mode, j) for t in range(width)], []))
                     # the marker write when an earlier part needed a retry
                     if k == n and n != 1:
-                        cases.append((saver, 2, parts, ABSENT, [(0, BEFORE, 0), (n + 1, mode, j)], []))
+                        cases.append((saver, 2, parts, ABSENT, [_w(0, BEFORE, 0), _w(n + 1, mode, j)], []))
             # computation of partition k fails on every attempt / on the first attempts only
             for k in range(n):
                 for m in (1, 2, 3):
-                    cases.append((saver, m, parts, ABSENT, [], [(k, a) for a in range(1, m + 1)]))
+                    cases.append((saver, m, parts, ABSENT, [], [_c(k, a) for a in range(1, m + 1)]))
                     if m > 1:
-                        cases.append((saver, m, parts, ABSENT, [], [(k, a) for a in range(1, m)]))
+                        cases.append((saver, m, parts, ABSENT, [], [_c(k, a) for a in range(1, m)]))
+            # the same crash points with faults of other exception classes, among them the ones Python treats
+            # specially: StopIteration (crossing a generator / ending an iterator), GeneratorExit (not an Exception)
+            if n <= 3 or not quick:
+                for cls in (OSERROR, STOP, GENEXIT):
+                    for k in points:
+                        for mode, j in ((BEFORE, 0), (MKDIR, 0), (TORN, 1)):
+                            cases.append((saver, 1, parts, ABSENT, [_w(k, mode, j, cls)], []))
+                            width = 2 if (k < n and n != 1) else 1
+                            cases.append((saver, 2, parts, ABSENT, [_w(k + t, mode, j, cls) for t in range(width)], []))
+                        # first attempt only: masked by the retry unless the class is not an Exception
+                        cases.append((saver, 2, parts, ABSENT, [_w(k, BEFORE, 0, cls)], []))
+                for cls in (OSERROR, STOP, GENEXIT, NATURAL):
+                    for k in range(n):
+                        for lazy in ((False,) if cls == NATURAL else (False, True)):
+                            for m in (1, 2):
+                                cases.append((saver, m, parts, ABSENT, [], [_c(k, a, cls, lazy) for a in range(1, m + 1)]))
+                            cases.append((saver, 2, parts, ABSENT, [], [_c(k, 1, cls, lazy)]))
             # the same through a file:// URL of the target
             if n <= 2:
                 for k in ([0, 1, 2] if n == 2 else [0]):
-                    cases.append((saver + 2, 1, parts, ABSENT, [(k, TORN, 1)], []))
+                    cases.append((saver + 2, 1, parts, ABSENT, [_w(k, TORN, 1)], []))
                 for pre in _pre_states(rng, saver)[:4]:
                     cases.append((saver + 2, 1, parts, pre, [], []))
-                cases.append((saver + 2, 2, parts, ABSENT, [], [(0, 1), (0, 2)]))
+                cases.append((saver + 2, 2, parts, ABSENT, [], [_c(0, 1), _c(0, 2)]))
+                cases.append((saver + 2, 2, parts, ABSENT, [], [_c(0, 1, NATURAL, False), _c(0, 2, NATURAL, False)]))
                 cases.append((saver + 2, 2, parts, ABSENT, [], []))
             # target pre-states
             if n <= 3 or not quick:
                 for pre in _pre_states(rng, saver):
                     cases.append((saver, 1, parts, pre, [], []))
-                    cases.append((saver, 2, parts, pre, [(0, rng.choice([BEFORE, MKDIR, TORN]), 1)], []))
-                    cases.append((saver, 1, parts, pre, [], [(0, 1)]))
+                    cases.append((saver, 2, parts, pre, [_w(0, rng.choice([BEFORE, MKDIR, TORN]), 1, rng.choice([INJECTED, STOP]))], []))
+                    cases.append((saver, 1, parts, pre, [], [_c(0, 1, rng.choice([INJECTED, STOP, GENEXIT]))]))
     # random plans
     for _ in range(700 if quick else 8000):
         saver = rng.choice((TEXT, PICKLE)) + rng.choice((0, 0, 2))
@@ -311,17 +351,20 @@ def generate(rng, tier):
         parts = _mk_parts(rng, saver, n)
         pre = ABSENT if rng.random() < 0.85 else rng.choice(_pre_states(rng, saver))
         horizon = n * m + 2
+        classes = rng.choice([[INJECTED], [INJECTED, OSERROR], [INJECTED, OSERROR, STOP, GENEXIT], [STOP], [STOP, GENEXIT]])
         wf = []
         for k in sorted(rng.sample(range(horizon), rng.choice([0, 1, 1, 2, 3, min(horizon, 6)]))):
             mode = rng.choice([BEFORE, MKDIR, TORN])
-            wf.append((k, mode, rng.choice([0, 1, 2, 5, 40]) if mode == TORN else 0))
+            wf.append(_w(k, mode, rng.choice([0, 1, 2, 5, 40]) if mode == TORN else 0, rng.choice(classes)))
         cf = []
         for i in range(n):
             r = rng.random()
             if r < 0.12:
-                cf += [(i, a) for a in range(1, m + 1)]
+                cls = rng.choice(classes + [NATURAL])
+                lazy = False if cls == NATURAL else rng.random() < 0.5
+                cf += [_c(i, a, cls, lazy) for a in range(1, m + 1)]
             elif r < 0.35:
-                cf += [(i, a) for a in range(1, m + 1) if rng.random() < 0.5]
+                cf += [_c(i, a, rng.choice(classes), rng.random() < 0.5) for a in range(1, m + 1) if rng.random() < 0.5]
         cases.append((saver, m, parts, pre, wf, cf))
     return cases
 
@@ -360,6 +403,9 @@ def shrink_candidates(case):
         yield (saver, m, parts[:n], pre, [w for w in wf], [c for c in cf if c[0] < n])
     if m > 1:
         yield (saver, m - 1, parts, pre, wf, [c for c in cf if c[1] <= m - 1])
+    for i, w in enumerate(wf):
+        if w[3] != INJECTED:
+            yield (saver, m, parts, pre, wf[:i] + [(w[0], w[1], w[2], INJECTED)] + wf[i + 1:], cf)
     for i, p in enumerate(parts):
         els = _elements(saver, p)
         if els:
